@@ -75,6 +75,12 @@ class Runner:
         if addr is None or addr < 0:
             return None
         bank = addr >> 16
+        if pr.get("regions"):
+            # user .map prologue given as disjoint regions (first, last, size, ram)
+            for lo, hi, mask, ram in pr["regions"]:
+                if lo <= bank <= hi:
+                    return ("ram",) if ram else ("rom", lo, hi, mask)
+            return None
         um = pr.get("usermap")
         if um:
             lo, hi, mask = um
@@ -236,27 +242,41 @@ def oracle_c01(run: Runner, s: core.Stream, pr, r):
 
 
 def oracle_c03(run: Runner, s: core.Stream, pr, r):
-    """output = emitted bytes at their mapped offsets: *= moves offset and run address, @= only the run address"""
+    """output = emitted bytes at their mapped offsets: *= moves offset and run address, @= only the run address;
+    consecutive statements are assembled for consecutive run addresses (Spec advance: ROM by file offset, RAM by n)"""
     if r["status"] != "ok" or r.get("nodes") is None:
         return
     S, relocated, claim = 0, False, True
     exp = []
     started = False
+    E = None   # Spec run address of the next statement (None = no claim yet / any more)
     for n in r["nodes"]:
         if n["run"] is None:
             return
         if n["cls"] == "CodePositionNode":
             p = run.spec_phys(pr, n.get("target"))
+            k = run.kind_of(pr, n.get("target"))
+            E = n.get("target") if k else None
             if p is None:
-                claim = False   # *= to RAM / below the window: no claim about the offset (DESIGN section 8)
-                relocated = True
+                if k and k[0] == "ram" and started:
+                    # a RAM target has no file offset to move to: the bytes that follow are stored after what was
+                    # stored so far (like @=); they never replace bytes already handed to the writer
+                    relocated = True
+                else:
+                    claim = False   # *= below the bank window / before any ROM position: no claim about the offset (DESIGN section 8)
+                    relocated = True
             else:
                 S, relocated, claim, started = p, False, claim, True
             continue
         if n["cls"] == "RelocationAddressNode":
             relocated = True
+            E = n.get("target") if run.kind_of(pr, n.get("target")) else None
             continue
         b = n["bytes"] or b""
+        if E is not None and (b or n["cls"] in ("LabelNode",)) and n["run"] != E:
+            s.violate({"src": pr["src"], "rom": pr["rom"]}, f"{n['cls']} assembled for {hex(E)} (the address after the bytes emitted since the last *= / @=)", hex(n["run"]),
+                      "a statement is not assembled for the run address that follows the previous statement's bytes")
+            return
         if b:
             if claim and started and not relocated:
                 p = run.spec_phys(pr, n["run"])
@@ -267,6 +287,17 @@ def oracle_c03(run: Runner, s: core.Stream, pr, r):
             for k, x in enumerate(b):
                 exp.append((S + k, x))
             S += len(b)
+            if E is not None:
+                k = run.kind_of(pr, E)
+                if k and k[0] == "ram":
+                    E = E + len(b)
+                    if run.kind_of(pr, E) != k:
+                        E = None
+                elif k and run.spec_phys(pr, E) is not None:
+                    q = run.spec_phys(pr, E) + len(b)
+                    E = run.spec_addr(k, q) if q < (k[2] - k[1] + 1) * k[3] else None
+                else:
+                    E = None
     if claim:
         got = own_writes(r)
         if got != exp:
